@@ -535,29 +535,63 @@ class C07(PokerProp):
         super().setup()
 
     def gen_case(self, rng):
+        import copy
         case = poker.gen_cfg(rng, self.scope)
         pol = rng.choice(["checkcall", "caller", "allin", "allin", "random", "folder", "potty"])
-        return poker.play(rng, case, probes_per_state=0, policy=pol)
+        sibp = None
+        if rng.random() < 0.3:
+            # a "sibling" hand played just before in the same process: the same cards under other roles (a seat's hole cards
+            # swapped with cards that will come on the board: the same nine / seven cards, split differently; hands rotated;
+            # another board) -- what a showdown cache keyed too coarsely would confuse.  It is generated AND played before the
+            # target hand is played for the first time (generation itself plays hands on the implementation).
+            from .p_iso import sibling
+            cfg = {k: copy.deepcopy(v) for k, v in case.items() if k not in ("ops", "fork_at", "fork_mode", "via_resume", "resume_at")}
+            cfg["deck"] = list(cfg.get("board") or []) + cfg["deck"]
+            cfg["board"] = []
+            try:
+                if rng.random() < 0.7 and len(cfg["deck"]) >= 5:
+                    sib = copy.deepcopy(cfg)
+                    i = rng.randrange(cfg["n"])
+                    for a, b in zip(rng.sample(range(len(sib["hands"][i])), rng.choice([1, 2])), rng.sample(range(5), 2)):
+                        sib["hands"][i][a], sib["deck"][b] = sib["deck"][b], sib["hands"][i][a]
+                else:
+                    sib = sibling(rng, cfg)
+                sib["stacks"] = [max(4, x) for x in sib["stacks"]]
+                sibp = poker.play(rng, sib, probes_per_state=0, policy="checkcall")
+            except Exception:
+                sibp = None
+        case = poker.play(rng, case, probes_per_state=0, policy=pol)
+        if sibp is not None:
+            case["sib"] = sibp
+        return case
 
     def impl(self, case):
         """as PokerProp.impl, but additionally records every board the evaluator was shown"""
-        import card_utils.games.poker.community.holdem.game_state as hgs
-        import card_utils.games.poker.community.omaha.game_state as ogs
+        # (the public hook `order_hands(players)` of the game classes is wrapped, not a helper the modules happen to import)
         seen = []
         orig = {}
-        for mod in (hgs, ogs):
-            f = mod.get_best_hands_fast
-            orig[mod] = f
+        for cls in poker.classes().values():
+            f = cls.order_hands
+            orig[cls] = f
 
-            def wrap(board, hands, _f=f):
-                seen.append([list(board), [list(h) for h in hands]])
-                return _f(board=board, hands=hands)
-            mod.get_best_hands_fast = wrap
+            def wrap(self, players, _f=f):
+                try:
+                    seen.append([list(self.board), [list(self.hands[p]) for p in players]])
+                except Exception:
+                    pass
+                return _f(self, players)
+            cls.order_hands = wrap
+        if case.get("sib"):
+            try:
+                poker.run_ops(case["sib"])
+            except Exception:
+                pass
+            del seen[:]
         try:
             rec, g = poker.run_ops(case)
         finally:
-            for mod, f in orig.items():
-                mod.get_best_hands_fast = f
+            for cls, f in orig.items():
+                cls.order_hands = f
         rec["boards_seen"] = seen
         return rec
 
